@@ -10,17 +10,17 @@ import (
 	"github.com/lightninglabs/pool/order"
 )
 
-// VerifSignHandler exposes rpcServer.handleServerMessage on an rpcServer that
+// VerifC05Handler exposes rpcServer.handleServerMessage on an rpcServer that
 // is wired to the given (real) database, funding manager, order manager and
 // auctioneer client. Used by the C05 harness only.
-type VerifSignHandler struct {
+type VerifC05Handler struct {
 	s *rpcServer
 }
 
-func NewVerifSignHandler(db *clientdb.DB, fm *funding.Manager,
-	om order.Manager, ac *auctioneer.Client) *VerifSignHandler {
+func VerifC05NewHandler(db *clientdb.DB, fm *funding.Manager,
+	om order.Manager, ac *auctioneer.Client) *VerifC05Handler {
 
-	return &VerifSignHandler{s: &rpcServer{
+	return &VerifC05Handler{s: &rpcServer{
 		server:       &Server{db: db, fundingManager: fm},
 		auctioneer:   ac,
 		orderManager: om,
@@ -29,6 +29,6 @@ func NewVerifSignHandler(db *clientdb.DB, fm *funding.Manager,
 }
 
 // Handle runs the real handleServerMessage.
-func (h *VerifSignHandler) Handle(msg *auctioneerrpc.ServerAuctionMessage) error {
+func (h *VerifC05Handler) Handle(msg *auctioneerrpc.ServerAuctionMessage) error {
 	return h.s.handleServerMessage(msg)
 }
